@@ -21,8 +21,8 @@ def nlStair (x : Rat) : Nat := nlStairAux x Spec.nlTable
 /-- py_common.cprNL as coded (`np.isclose(a, b)` is `|a-b| <= 1e-8 + 1e-5*|b|`). -/
 def cprNL (lat : Rat) : Nat :=
   if rabs lat ≤ (1 : Rat) / 100000000 then 59
-  else if rabs (rabs lat - 87) ≤ (1 : Rat) / 100000000 + (87 : Rat) / 100000 then 2
   else if lat > 87 ∨ lat < -87 then 1
+  else if rabs (rabs lat - 87) ≤ (1 : Rat) / 100000000 + (87 : Rat) / 100000 then 2
   else nlStair (rabs lat)
 
 /-- `common.floor` -/
@@ -142,8 +142,8 @@ def surfacePositionCore (nl : Rat → Nat) (e o : Nat × Nat) (t0 t1 latRef lonR
   let lat_odd_n : Rat := d_odd * (((j % 59 : Int) : Rat) + cprlat_odd)
   let lat_even_s := lat_even_n - 90
   let lat_odd_s := lat_odd_n - 90
-  let lat_even := if latRef > 0 then lat_even_n else lat_even_s
-  let lat_odd := if latRef > 0 then lat_odd_n else lat_odd_s
+  let lat_even := if rabs (lat_even_n - latRef) ≤ rabs (lat_even_s - latRef) then lat_even_n else lat_even_s
+  let lat_odd := if rabs (lat_odd_n - latRef) ≤ rabs (lat_odd_s - latRef) then lat_odd_n else lat_odd_s
   if nl lat_even ≠ nl lat_odd then none
   else
     let (lat, lon) :=
@@ -158,7 +158,7 @@ def surfacePositionCore (nl : Rat → Nat) (e o : Nat × Nat) (t0 t1 latRef lonR
         let m := pfloor (cprlon_even * ((n : Rat) - 1) - cprlon_odd * n + 1 / 2)
         (lat_odd, ((90 : Rat) / ni) * (((m % (ni : Int) : Int) : Rat) + cprlon_odd))
     let lons := [lon, lon + 90, lon + 180, lon + 270].map (fun l => rmod360 (l + 180) - 180)
-    let dls := lons.map (fun l => rabs (lonRef - l))
+    let dls := lons.map (fun l => rabs (rmod360 (lonRef - l + 180) - 180))
     let imin := argminFirst dls
     some (lat, lons.getD imin 0)
 
